@@ -20,7 +20,7 @@ PROPS = {
         assumptions=["u32 arguments (the API type)"],
     ),
     "C18": dict(
-        modules=["Fuota.Props.C18"],
+        modules=["Fuota.Props.C18", "Fuota.Props.C18b"],
         suites=[dict(name="d1f", cfg="matrix"),
                 dict(name="d5f", cfg="matrix", keys=["res", "ops", "recv", "total", "complete"]),
                 dict(name="d5fr", cfg="matrix", oracle_only=True)],
@@ -96,7 +96,7 @@ PROPS = {
         assumptions=["geometries with parity capacity >= 1 (with capacity 0 the parity header never parses)"],
     ),
     "C06": dict(
-        modules=["Fuota.Props.C06"],
+        modules=["Fuota.Props.C06", "Fuota.Props.C06b"],
         suites=[dict(name="d5c", cfg="matrix", keys=["res", "recv", "total", "complete", "s0", "s1", "s2", "s3", "s4", "s5"])],
         rule="per generated session: power loss before mutating flash operation k of operation j, for every (j, k) of "
              "start_update, every handle_segment and check_and_mark_done (sampled in quick tier, every site class "
